@@ -1,45 +1,6 @@
 import Gms.Driver.Proto
-import Gms.Driver.MemTableProto
-import Gms.Model.MemTable
-open Gms.Proto Gms.MemTable Gms.MemTableProto
+import Gms.Driver.MemTableRun
+open Gms.Proto
 
-/-- Region of one statement on pre-state `t` ("-" when Impl model and Spec agree). -/
-def stmtRegion (sch : Schema) (t : List Row) (s : Stmt) (masked differ : Bool) : String :=
-  if !differ then "-"
-  else if regionPrintCollision sch t s then "pk_print_collision"
-  else if masked then "unique_check_ignores_pending_edits"
-  else if regionReplaceMulti sch t s then "replace_multi_delete_count"
-  else if regionCiKey sch t s then "ci_collation_key"
-  else "?"
-
-/-- Run a history: every statement is judged from the Impl model's state before it (the Spec is
-re-synchronised after each statement, so one defect does not hide the next). -/
-def runHistory (sch : Schema) : List Row → List Stmt → List String → List String → List String →
-    List String × List String × List String
-  | _, [], io, so, rg => (io.reverse, so.reverse, rg.reverse)
-  | t, s :: rest, io, so, rg =>
-    let (o, e) := implStmtE sch t s
-    let (o', t') := specStmt sch t s
-    let i := rStep o e.rows
-    let sp := rStep o' t'
-    runHistory sch e.rows rest (i :: io) (sp :: so) (stmtRegion sch t s e.inexact (i != sp) :: rg)
-
-def pickRegion (rs : List String) : String :=
-  if rs.contains "?" then "-"
-  else match rs.filter (· != "-") with
-    | [] => "-"
-    | r :: _ => r
-
-def handle (p : List Sexp) : String :=
-  match p with
-  | [sch, .list (.atom "stmts" :: stmts)] =>
-    match pSchema sch, stmts.mapM pStmt with
-    | some sch, some stmts =>
-      let (io, so, rg) := runHistory sch [] stmts [] [] []
-      let i := ";".intercalate io
-      let s := ";".intercalate so
-      if i == s then answer i else answer i s (pickRegion rg)
-    | _, _ => answer "bad-case"
-  | _ => answer "bad-case"
-
-def main : IO Unit := runPure handle
+/-- C13: outcome class, affected / matched counts and table contents after every statement. -/
+def main : IO Unit := runPure (Gms.MemTableRun.handle true)
